@@ -71,6 +71,22 @@ theorem then_number_is_goto (env : Env) (text : String) (n : Int) (more : List V
     visitNamed env "line_or_stmnts" text (.int n :: more) = .ok (.stmt (.goto n true false [])) := by
   rfl
 
+/-- **an ELSE-IF chain with an ELSE arm always gets its unconditional exit** - whatever the ELSE arm holds, an empty
+statement list included: the emitted LOOP ends with `EXITIF TRUE THEN … ENDEXIT` before `ENDLOOP`, so the loop is left
+when no guard holds (without an ELSE arm it is not: the finding `else-if-chain-without-else-never-exits`) -/
+theorem else_arm_always_exits (i : Int) (c : Expr) (body e : Stmt) (f : Stmt) (elifs : List Stmt) (pre : List Expr) :
+    Emit.stmt i true (.ifElse c body (f :: elifs) (some e) pre) =
+      Emit.ind i ++ "LOOP\n"
+        ++ Emit.join "\n" ((Emit.ind (i + 1) ++ "EXITIF " ++ Emit.expr 0 c ++ " THEN\n" ++ Emit.stmt (i + 2) true body ++ "\n"
+              ++ Emit.ind (i + 1) ++ "ENDEXIT") :: Emit.elifTexts i (f :: elifs))
+        ++ "\n" ++ (Emit.ind (i + 1) ++ "EXITIF TRUE THEN\n" ++ Emit.stmt (i + 2) true e ++ "\n" ++ Emit.ind (i + 1) ++ "ENDEXIT\n")
+        ++ Emit.ind i ++ "ENDLOOP" := by
+  simp [Emit.stmt]
+
+/-- the theorem at an empty ELSE arm: `IF A THEN … ELSE IF B THEN … ELSE` (nothing after the last ELSE) -/
+example := else_arm_always_exits 0 (.var "A" false) (.stmts false [] []) (.stmts false [] [])
+  (.if_ (.var "B" false) (.stmts false [] []) []) [] []
+
 /-- non-vacuity: `ON A GOTO 30,0,40` - line 0 in the middle stays -/
 example (env : Env) :
     visitNamed env "on_n_go_statement" "" [.none, .none, varOf "A" false, .none, .node "GOTO", .none, .list [.int 30, .int 0, .int 40], .none]
